@@ -291,4 +291,3 @@ func moduleSeesZeroValue(s *Snap, v int, denom string) bool {
 	}
 	return false
 }
-
